@@ -322,6 +322,16 @@ func (r *R) Fail(t TB, check string, c any, err error) {
 	t.Fatalf("VIOLATION %s/%s: %v", r.res.Property, check, err)
 }
 
+// FailFatal records a violation after which the process cannot go on safely (a call that never
+// returned leaves a runaway goroutine behind): the result file is written and the process exits at
+// once, without shrinking. The driver reports the recorded violation.
+func (r *R) FailFatal(t *testing.T, check string, c any, err error) {
+	r.Record(check, c, err)
+	fmt.Printf("VIOLATION (fatal, not shrunk) %s/%s: %v\n", r.res.Property, check, err)
+	r.finish(true)
+	os.Exit(3)
+}
+
 // Record records a violation without stopping.
 func (r *R) Record(check string, c any, err error) {
 	b, _ := json.Marshal(c)
@@ -370,9 +380,15 @@ func (r *R) Rapid(t *testing.T, name string, total int, prop func(*rapid.T)) {
 
 // Finish writes the shard's result file (VERIF_OUT) and the hash set (VERIF_OUT.hashes).
 func (r *R) Finish(t *testing.T) {
+	r.finishT(t, !t.Failed())
+}
+
+func (r *R) finish(ok bool) { r.finishT(nil, ok) }
+
+func (r *R) finishT(t *testing.T, ok bool) {
 	r.mu.Lock()
 	defer r.mu.Unlock()
-	r.res.Completed = !t.Failed() || len(r.fails) > 0
+	r.res.Completed = ok || len(r.fails) > 0
 	names := make([]string, 0, len(r.fails))
 	for k := range r.fails {
 		names = append(names, k)
@@ -388,7 +404,9 @@ func (r *R) Finish(t *testing.T) {
 		if len(b) > 6000 {
 			b = b[:6000]
 		}
-		t.Logf("result (no VERIF_OUT set): %s", b)
+		if t != nil {
+			t.Logf("result (no VERIF_OUT set): %s", b)
+		}
 		return
 	}
 	b, _ := json.Marshal(r.res)
